@@ -306,13 +306,27 @@ package task
 // C13: inbound channels are configured from the task's own bind map, outbound ones from the environment-wide map, and an
 // outbound channel that cannot be resolved aborts the configuration.
 //@ func (t *Task) BuildPropertyMap(bindMap channel.BindMap) (propMap controlcommands.PropertyMap, err error)
-//@   property C13
+//@   property C13 C14
 //@   ghostvar outErr bool = false
-//@   on call (*channel.Inbound).ToFMQMap : assert arg1 == t.localBindMap
-//@   on call (*channel.Outbound).ToFMQMap : assert arg1 == bindMap
+//@   [C13] on call (*channel.Inbound).ToFMQMap : assert arg1 == t.localBindMap
+//@   [C13] on call (*channel.Outbound).ToFMQMap : assert arg1 == bindMap
 //@   on aftercall (*channel.Outbound).ToFMQMap : outErr = outErr || (result1 != nil)
-//@   loop 5 invariant !outErr
-//@   loop 6 invariant !outErr
-//@   loop 7 invariant !outErr
-//@   loop 8 invariant !outErr
-//@   ensures outErr ==> err != nil
+//@   [C13] loop 5 invariant !outErr
+//@   [C13] loop 6 invariant !outErr
+//@   [C13] loop 7 invariant !outErr
+//@   [C13] loop 8 invariant !outErr
+//@   [C13] ensures outErr ==> err != nil
+// C14: the workflow's stack ranks above the task class's own vars and defaults: it is the wrapping (winning) level
+//@   ghostvar wf *string = nil
+//@   [C14] on aftercall .ConsolidatedVarStack : wf = result0
+//@   [C14] on call .WrappedAndFlattened : assert arg0 != nil && arg0.theMap == wf && arg0.parent == nil
+
+// ---------------------------------------------------------------------------------------------------------
+// C14: a task template's own defaults and vars rank below everything coming from the workflow: in both merges the
+// workflow-derived stack is the wrapping (winning) level, the class's map the wrapped one.
+//@ func (t *Task) BuildTaskCommand(role parentRole) (err error)
+//@   property C14
+//@   ghostvar wf *string = nil
+//@   on aftercall .ConsolidatedVarStack : wf = result0
+//@   on call .WrappedAndFlattened : assert arg0 != nil && arg0.theMap == wf && arg0.parent == nil
+//@   on aftercall .WrappedAndFlattened : wf = result0
